@@ -17,6 +17,16 @@ CHECKS = {
              "string up to length 4/5 over a class-representative alphabet is replayed through the real decode, and an "
              "odometer cross-checked against TLC's walk drives decode over sampled (quick) or all 87.5M (thorough) width-5 values.",
         design="5/C19"),
+    "C20": dict(
+        engine="Rotation",
+        technique="TLA+ exact-rational Rodrigues spec + code-shaped five-step mechanism model-checked by TLC; "
+                  "TLC-generated triples replayed into rotate_vector_around_an_axis; quantised real results "
+                  "trace-validated by TLC",
+        text="TLC checks on every (angle, axis, vector) of the rational family (axes -6..6, 11 cosines, vectors -1..1 / -2..2) "
+             "that the closed form satisfies the statement's clauses and that the five-step mechanism with its case "
+             "splits equals it; every triple is replayed through the real function (1e-9), and real results for random "
+             "generic angles/axis lengths are quantised and checked by TLC against the three clauses.",
+        design="5/C20"),
 }
 
 NOT_APPLICABLE = {}
